@@ -91,6 +91,7 @@ contract(
     params=dict(SC, micros=P.int(0, 2**64 - 1)),
     setup=LD + ["t = spec.env.Transport([spec.msgrouter.connected_reply(0x03, 0, b'\\x01\\x00\\x0b\\x00\\x00\\x00' + "
                 "spec.cip_codec.le_uint(micros, 8))])", "d._sock = t"],
+    known=[("KF-PLC-TIME-RANGE", "micros > 253402300799999999")],
     ensures=["result.value['microseconds'] == micros", "bool(result)",
              "spec.msgrouter.try_parse_request(spec.encap.try_parse_frame(t.sent[0])[3][3]) == "
              "(0x03, [('logical', 'class_id', 0x8B), ('logical', 'instance_id', 1)], b'\\x01\\x00\\x0b\\x00')"],
